@@ -96,7 +96,8 @@ def do_import(outdir, prop):
 def do_run(props):
     for mf in sorted(glob.glob(os.path.join(V, "seeded", "*", "*", "meta.json"))):
         meta = json.load(open(mf))
-        if props and meta["property"] not in props: continue
+        rel_ = os.path.relpath(os.path.dirname(mf), os.path.join(V, "seeded"))
+        if props and meta["property"] not in props and rel_ not in props: continue
         extra = meta.get("also_run", [])
         r = run_checks(os.path.join(os.path.dirname(mf), "patch.diff"), [meta["property"]] + extra)
         meta["checks"] = r
